@@ -209,6 +209,8 @@ structure Variant where
   ptrAfterRealloc : Bool := true   -- the operand pointers are fetched after the MPZ_REALLOCs (tdiv_qr.c:65-68)
   quotSizeLast : Bool := true      -- tdiv_qr.c:57-59: `SIZ (quot) = 0` after the copy to rem
   fdivCopy : Bool := true          -- fdiv_qr.c:39-44, fdiv_r.c:38-43, mod.c:38-43: temp_divisor
+  divexactTmp : Bool := true       -- divexact.c:68-69: quotient built in TMP space when quot is num or den
+  copyBeforeFree : Bool := true    -- divexact.c:79-82: the copy back to quot precedes TMP_FREE
   deriving Repr
 
 def Variant.c : Variant := {}
@@ -414,6 +416,48 @@ def modV (V : Variant) (rem dividend divisor : Nat) (s : St) : R St := do
   pure (if copied then s.tmpDone else s)                      -- :60
 
 def mod := modV .c
+
+/-! ## mpz_divexact -/
+
+/-- mpn_divexact (qp, np, nn, dp, dn): mpn/generic/divexact.c:1-3 "Overlap allowed between Q and N; all other
+    overlap disallowed", :50-52 `dn > 0`, `nn >= dn`, `dp[dn-1] > 0`.  The quotient is specified only when D divides
+    N; the model stores `N / D`. -/
+def mpn_divexact (qp np nn dp dn : Nat) (s : St) : R St := do
+  if qp = dp then throw "ub:mpn_divexact operands overlap"
+  let n ← s.load np nn
+  let d ← s.load dp dn
+  if ¬ (1 ≤ dn ∧ dn ≤ nn) then throw "ub:mpn_divexact sizes"
+  if d.getD (dn - 1) 0 = 0 then throw "ub:mpn_divexact divisor not normalised"
+  s.store qp (toLimbs (nn - dn + 1) (val n / val d))
+
+/-- mpz_divexact (quot, num, den): mpz/divexact.c:49-82 (the WANT_ASSERT block :38-46 is compiled out).
+    There is no test for den = 0 in the C (mpn_divexact ASSERTs dn > 0): the model reports it as `ub`. -/
+def divexactV (V : Variant) (quot num den : Nat) (s : St) : R St := do
+  let nn := (s.size num).natAbs                               -- divexact.c:49
+  let dn := (s.size den).natAbs                               -- :50
+  let qn : Int := (nn : Int) - (dn : Int) + 1                 -- :52
+  let s := s.mpzRealloc quot qn.toNat                         -- :53
+  if nn < dn then pure (s.setSize quot 0)                     -- :55-62
+  else
+    if dn = 0 then throw "ub:mpz_divexact by zero"
+    let qn := qn.toNat
+    let c : Bool := V.divexactTmp ∧ (quot = num ∨ quot = den) -- :68
+    let r := s.tmpAlloc qn                                    -- :69 qp = TMP_ALLOC_LIMBS (qn)
+    let qp := if c then r.1 else s.ptr quot                   -- :66, :69
+    let s := if c then r.2 else s
+    let np := s.ptr num                                       -- :71
+    let dp := s.ptr den                                       -- :72
+    let s ← mpn_divexact qp np nn dp dn s                     -- :74
+    let qn ← normSize s qp qn                                 -- :75 MPN_NORMALIZE (qp, qn)
+    let s := s.setSize quot (if sameSign (s.size num) (s.size den) then (qn : Int) else -(qn : Int))   -- :77
+    let s := if c ∧ !V.copyBeforeFree then s.free qp else s   -- (wrong variant: TMP_FREE first)
+    let s ← (if qp ≠ s.ptr quot then do                       -- :79
+        let l ← s.load qp qn                                  -- :80 MPN_COPY (PTR(quot), qp, qn)
+        s.store (s.ptr quot) l
+      else pure s)
+    pure (if c ∧ V.copyBeforeFree then s.free qp else s)      -- :82 TMP_FREE
+
+def divexact := divexactV .c
 
 /-! ## building a state from values (driver, examples) -/
 
